@@ -45,6 +45,8 @@ _VALID_TEXT_OUTPUT = attribute_util.string_from_list({"Emit", "Skip"})
 
 def _valid_back_ends(attr, module_source_file):
     """Checks that `attr` holds a valid list of back end specifiers."""
+    if not attr.value.has_field("string_constant"):
+        return attribute_util.STRING(attr, module_source_file)
     if not re.fullmatch(
         r"(?:\s*[a-z][a-z0-9_]*\s*(?:,\s*[a-z][a-z0-9_]*\s*)*,?)?\s*",
         attr.value.string_constant.text,
